@@ -582,7 +582,7 @@ func run(c *harness.Ctx, i int) {
 		return
 	}
 	if ee, ok := rerr.(*exec.ExitError); ok && ee.ExitCode() == 3 {
-		c.Inconclusive("chroot failed: %s", stderr.String())
+		c.Skip("chroot failed: %s", stderr.String())
 		return
 	}
 	after, err := treegen.Snapshot(jail)
